@@ -73,8 +73,8 @@ Proof. unfold spec_kind. destruct (any_model l); discriminate. Qed.
 
 (* how `add` reduces when no operand is a FreeParameterAnalysis *)
 Lemma add_cc (c : cfg) (k k' : ckind) (its its' : list item) :
-  k <> KFree -> add c (VComb k its) (VComb k' its') = construct c k (its ++ its').
-Proof. intro H. destruct k; try reflexivity; contradiction. Qed.
+  k <> KFree -> k' <> KFree -> add c (VComb k its) (VComb k' its') = construct c k (its ++ its').
+Proof. intros H H'. destruct k, k'; try reflexivity; contradiction. Qed.
 Lemma add_cs (c : cfg) (k : ckind) (its : list item) (j : nat) (h : bool) :
   k <> KFree -> add c (VComb k its) (VSingle j h) = construct c k (its ++ [IPlain j h]).
 Proof. intro H. destruct k; try reflexivity; contradiction. Qed.
@@ -188,10 +188,14 @@ Qed.
 Theorem flatten_free_top (c : cfg) (e : expr) :
   nofree e = true -> guard c e = true -> eval c (Free e) = spec_struct (Free e).
 Proof.
-  intros N G. change (eval c (Free e)) with (with_free (eval c e)). rewrite (flatten_sum c e N G).
-  destruct e as [j h|a b|e0]; [reflexivity| |discriminate].
-  unfold spec_struct. rewrite N. unfold sum_struct. apply with_free_spec.
+  intros N G. change (eval c (Free e)) with (with_free (eval c e)). rewrite (flatten_ok c e N G). reflexivity.
 Qed.
+
+(* the specification of with_free_parameters on a finished sum, spelled out *)
+Lemma spec_struct_free_sum (a b : expr) : nofree (Add a b) = true ->
+  spec_struct (Free (Add a b)) = VComb KFree (spec_items KFree (leaves (Add a b))).
+Proof. intro N. change (spec_struct (Free (Add a b))) with (with_free (spec_struct (Add a b))).
+  simpl spec_struct. simpl in N. rewrite N. apply with_free_spec. Qed.
 
 (* adding to a free-parameter sum, or adding a single analysis to one, raises *)
 Lemma eval_free_kind (c : cfg) (e : expr) : eval c (Free e) = VErr \/ exists its, eval c (Free e) = VComb KFree its.
@@ -232,4 +236,38 @@ Proof.
   assert (R : forall i its, length (reindex_from i its) = length its).
   { intros i its. revert i. induction its; intro i; simpl; auto. }
   destruct k; simpl; unfold plain_items; rewrite ?R, map_length; reflexivity.
+Qed.
+
+(* ---------- every expression, with_free_parameters anywhere (needs the proposed fix_free_right) ---------- *)
+Lemma add_err_l (c : cfg) (x : aval) : add c VErr x = VErr.
+Proof. destruct x; reflexivity. Qed.
+Lemma add_err_r (c : cfg) (x : aval) : add c x VErr = VErr.
+Proof. destruct x as [j h|k its|]; try reflexivity. destruct k; reflexivity. Qed.
+Lemma add_free_l (c : cfg) (its : list item) (x : aval) : add c (VComb KFree its) x = VErr.
+Proof. destruct x; reflexivity. Qed.
+Lemma add_free_r (c : cfg) (its : list item) (x : aval) : fix_free_right c = true -> add c x (VComb KFree its) = VErr.
+Proof. intro F. destruct x as [j h|k its'|]; try reflexivity. destruct k; simpl; rewrite ?F; reflexivity. Qed.
+
+Lemma spec_shape_free (e : expr) : nofree e = false -> spec_struct e = VErr \/ exists its, spec_struct e = VComb KFree its.
+Proof.
+  destruct e as [j h|a b|e']; intro N; [discriminate| |].
+  - left. simpl. simpl in N. rewrite N. reflexivity.
+  - simpl. destruct (spec_struct e'); auto. right. eexists. reflexivity.
+Qed.
+
+(* with all three repairs of `+` the structure is the specified one for EVERY expression: sums in the
+   order written, with_free_parameters on a finished sum, and an error for anything that adds to a
+   free-parameter sum or frees a single analysis *)
+Theorem flatten_all (c : cfg) (e : expr) :
+  fix_order c = true -> fix_new c = true -> fix_free_right c = true -> eval c e = spec_struct e.
+Proof.
+  intros O Nw F. induction e as [j h|a IHa b IHb|e IH]; [reflexivity| |].
+  - destruct (nofree (Add a b)) eqn:N.
+    + apply flatten_ok; [exact N|apply guard_repaired; assumption].
+    + change (eval c (Add a b)) with (add c (eval c a) (eval c b)). rewrite IHa, IHb.
+      assert (S : spec_struct (Add a b) = VErr) by (simpl; simpl in N; rewrite N; reflexivity). rewrite S.
+      simpl in N. destruct (nofree a) eqn:Na.
+      * simpl in N. destruct (spec_shape_free b N) as [H|[its H]]; rewrite H; [apply add_err_r|apply add_free_r; exact F].
+      * destruct (spec_shape_free a Na) as [H|[its H]]; rewrite H; [apply add_err_l|apply add_free_l].
+  - change (eval c (Free e)) with (with_free (eval c e)). rewrite IH. reflexivity.
 Qed.
